@@ -19,9 +19,14 @@
 //   - per key, the history of writes / reads / deletes / snapshot swaps / clears is linearizable against the
 //     sequential model {snapshot map, hot map; read = union, hot wins on equal time, sorted} (porcupine,
 //     20 s timeout, Unknown = inconclusive_porcupine, never reported). A history that fails is re-checked
-//     against two weaker models to name the anomaly: reads that may miss a part of the hot values
-//     (C09:read-truncated) and writes overlapping a delete of their key that may have stored nothing
-//     (C09:write-lost-in-delete-race); anything else is C09:not-linearizable;
+//     against weaker models, in this order, to name the anomaly: a Values read that observes the hot and the
+//     snapshot store at two instants of its interval (C09:read-not-atomic-across-stores), a DeleteRange that
+//     takes effect on the hot store and later on the retained snapshot store
+//     (C09:delete-not-atomic-across-stores; if both weakenings are needed the first class with signature
+//     with-split-delete:...), reads that may miss a part of the hot values (C09:read-truncated) and writes
+//     overlapping a delete of their key that may have stored nothing (C09:write-lost-in-delete-race);
+//     anything else is C09:not-linearizable. DeleteRange filters the hot store and, outside a snapshot window,
+//     the retained snapshot store (the model's delete does both; the harness never deletes inside a window);
 //   - a WriteMulti may be rejected for the limit only if the largest size the cache can have had during its
 //     interval plus its own size exceeds the limit, and must be rejected if even the smallest possible size plus
 //     its own size exceeds it (C09:spurious-limit-reject / C09:limit-not-enforced);
@@ -638,13 +643,14 @@ var linModelProto = porcupine.Model{
 // The cache keeps a key's values in two stores (hot, retained/in-flight snapshot). Values looks both entries up
 // atomically but copies their contents one after the other, and DeleteRange filters the hot store and then the
 // retained snapshot store. A weakened history splits such an operation into two steps with the interval of the
-// original: a read observes each store at one of two instants (each store individually consistent; if a swap
-// or clear happens between the instants only a one-instant view is accepted), a delete takes effect on the hot
-// store first and on the snapshot store later.
+// original: a read observes the snapshot store at the first and the hot store at the second instant (each store
+// individually consistent; if a swap happens between the instants only a one-instant view is accepted, because
+// the reader holds the entries it looked up at the start), a delete takes effect on the hot store first and on
+// the snapshot store later.
 
 type splitState struct {
 	snap, hot string
-	epoch     int    // swaps and clears so far
+	epoch     int    // swaps so far
 	pend      string // pending halves, sorted: r<id>~<epoch>~<snap>~<hot>; or d<id>;
 }
 
@@ -694,8 +700,7 @@ var splitModel = porcupine.Model{
 			st.epoch++
 			return true, st
 		case 'c':
-			st.snap = ""
-			st.epoch++
+			st.snap = "" // the reader of a cleared snapshot keeps the entry it looked up: no new epoch
 			return true, st
 		case 'p':
 			st.pend = pendAdd(st.pend, fmt.Sprintf("r%d~%d~%s~%s", in.id, st.epoch, st.snap, st.hot))
@@ -715,7 +720,8 @@ var splitModel = porcupine.Model{
 			if encTV(mergeTV(s1, h1)) == got || encTV(mergeTV(s2, h2)) == got {
 				return true, st
 			}
-			if e1 == st.epoch && (encTV(mergeTV(s1, h2)) == got || encTV(mergeTV(s2, h1)) == got) {
+			// Values copies the snapshot entry first and the hot entry afterwards
+			if e1 == st.epoch && encTV(mergeTV(s1, h2)) == got {
 				return true, st
 			}
 			return false, st
